@@ -222,6 +222,8 @@ def eval_case(c):
         Cw = Xw.conj().T @ Xw / nn
         if real.relerr(Cw, Ca) > tol * (1 if a > 0 else 10):
             msgs.append(f"whitened covariance != C^alpha (rel {real.relerr(Cw, Ca):.2e})")
+        if 0.999 < a < 1 and real.relerr(Cw - C, Ca - C) > 1e-3:
+            msgs.append(f"alpha = {a}: the whitened covariance moved away from C by {np.linalg.norm(Cw - C):.2e}, C^alpha by {np.linalg.norm(Ca - C):.2e}")
         back = w.inverse_transform_data(w.transform(da)).compute().values
         if real.relerr(back, X) > tol:
             msgs.append(f"un-whitening does not restore the data ({real.relerr(back, X):.2e})")
@@ -296,6 +298,12 @@ def bounded_cases(tier, seed):
                     cases.append(dict(kind="pca", n=nn, p=pp, cond=4.0, n_modes=nm, cplx=cplx, dask=False, keep=cplx and nn == 40))
     for i, c in enumerate(cases):
         c["seed"] = int(seed) * 1000 + i
+    # dask back end with many more features than modes (the compressed solver is then genuinely approximate), gapped spectrum
+    for nm in (2, 3):
+        cases.append(dict(kind="pca", n=80, p=30, cond=1e4, n_modes=nm, cplx=False, dask=True, keep=True))
+    # alpha just below one is NOT the identity
+    for a in (1 - 1e-6, 1 - 3e-6):
+        cases.append(dict(kind="whitener", n=60, p=4, cond=10.0, alpha=a, cplx=False, dask=False, keep=True))
     # refit histories: a transformer fitted, used in both directions, and fitted again on other data must be the transformer of the last fit
     for kind in ("whitener", "pca"):
         for cplx in (False, True):
